@@ -14,33 +14,19 @@ A section that leaves the model makes the whole case `UNSUP …` (not compared),
 namespace Ecal.Drv.C05
 open Ecal.Drv Ecal.Drv.EvalCommon Ecal.Ev
 
-def splitSections (p : String) : List String := p.splitOn " @ "
+/-- the sections of a case; a section may carry alternatives `<chained> [~ <as is>] ~ <spec>` (calls of a call
+    result, known finding call-result-not-callable, see c05Chains in c05.go): `pick` chooses which one the model runs —
+    `asIs = true`: the code as it is (the program with the dropped calls removed; the spec program when nothing is
+    dropped), `false`: the let-desugared meaning -/
+def splitSections (asIs : Bool) (p : String) : List String :=
+  (p.splitOn " @ ").map fun sec => match sec.splitOn " ~ " with
+    | [_, a, s] => if asIs then a else s
+    | [_, s] => s
+    | _ => sec
 
-/-- `EvalCommon.decodeInterp` splits an entry at EVERY '=' and so rejects embedded code whose tree has a node named
-    `:=`, `==`, `>=` …; here the entry is split at the first '=' only (the code part is hex) -/
-def decodeInterp' (s : String) : Option (List Nat × InterpEntry) :=
-  match s.splitOn "=" with
-  | code :: r1 :: more => do
-    let rest := "=".intercalate (r1 :: more)
-    let code ← hexDecode code
-    if rest.startsWith "#" then
-      let r ← hexDecode (rest.drop 1).toString
-      some (code, .text r)
-    else
-      let n ← decodeAst rest
-      some (code, .ast n)
-  | _ => none
-
-def decodePayload' (p : String) : Option Program :=
-  match p.splitOn " " with
-  | src :: ast :: entries => do
-    let src ← hexDecode src
-    let tab ← entries.mapM decodeInterp'
-    if ast == "!" then some { src := src, ast := none, interp := tab }
-    else
-      let n ← decodeAst ast
-      some { src := src, ast := some n, interp := tab }
-  | _ => none
+/-- the case has an "as is" program: the code is known to deviate from the spec there -/
+def hasKnownDeviation (p : String) : Bool :=
+  (p.splitOn " @ ").any fun sec => (sec.splitOn " ~ ").length == 3
 
 def errText : Sig → String
   | .err e _ => s!"ERR {hexEnc (strBytes e.type)}"
@@ -72,8 +58,8 @@ def canonErrObjects (t : String) : String :=
   ((((t.replace "s6572726f72:?error text" "s6572726f72:~E").replace "s64657461696c:?detail text" "s64657461696c:~D").replace
     "s736f75726365:?source name" "s736f75726365:~S").replace "s7472616365:?trace" "s7472616365:~T").replace "?int" "~I"
 
-def runCase (payload : String) : String :=
-  match (splitSections payload).mapM decodePayload' with
+def runSections (secs : List String) : String :=
+  match secs.mapM decodePayload with
   | none => "bad-payload"
   | some progs =>
     let m : M (Nat × List String) := do
@@ -88,6 +74,13 @@ def runCase (payload : String) : String :=
       let t := canonErrObjects (";".intercalate outs ++ ";G " ++ globalDump st g ++ ";LOG " ++ logText st)
       if t.contains '?' then "UNSUP result shows a value the model does not know"
       else t ++ (if st.log.size ≥ 1 then "\tnt=1" else "")
+
+def runCase (payload : String) : String :=
+  let main := runSections (splitSections true payload)
+  if hasKnownDeviation payload then
+    let spec := ((runSections (splitSections false payload)).splitOn "\t").headD ""
+    main ++ "\tkf=call-result-not-callable\tspec=" ++ spec
+  else main
 
 def run (_args : List String) : IO Unit := lineLoop runCase
 end Ecal.Drv.C05
